@@ -91,6 +91,15 @@ def run(tier, PROP):
                                   {"line": lines[i], "real": real[i], "spec": exp}, True)
                 if model and real[i] != model[i]:
                     broken.append({"kind": "correspondence", "msg": f"mem-ops LE: `{lines[i]}` real `{real[i]}` model `{model[i]}`"})
+            if PROP == "C16":
+                # atomic accesses are valid on memories that are NOT declared shared as well: same answers required
+                real_u = mo_run(exe_le, lines, env={"MEMOPS_UNSHARED": "1"})
+                for i, c in enumerate(cases):
+                    exp = spec_expect(c, sig)
+                    chk.count_case(("le-unshared", c[0], c[1], c[2], tuple(c[3])), True, None)
+                    if real_u[i] != exp:
+                        chk.violation(f"{c[0]}-unshared-real-vs-spec", f"{c[0]} on a memory that is not declared shared gives `{real_u[i]}`, the specification requires `{exp}`",
+                                      {"line": lines[i], "real": real_u[i], "spec": exp, "unshared": True}, True)
         if exe_be:
             # the BE bodies on this LE host: validates the regenerated BE model; and the BE result must be the
             # byte-reversed image of the LE one (what a BE host would turn into the LE view)
@@ -213,9 +222,10 @@ def be_on_le_expect(case, sig):
     return head + " mem " + mb.hex()
 
 
-def mo_run(exe, lines):
+def mo_run(exe, lines, env=None):
     import subprocess
-    p = subprocess.run([exe], input="\n".join(lines) + "\n", stdout=subprocess.PIPE, stderr=subprocess.PIPE, text=True, timeout=900)
+    p = subprocess.run([exe], input="\n".join(lines) + "\n", stdout=subprocess.PIPE, stderr=subprocess.PIPE, text=True, timeout=900,
+                       env=dict(os.environ, **env) if env else None)
     out = p.stdout.splitlines()
     if len(out) != len(lines):
         raise RuntimeError(f"mem harness answered {len(out)} lines for {len(lines)}: {p.stderr[-300:]}")
@@ -255,7 +265,7 @@ def replay(path, PROP):
     with vlib.scratch("memr-") as d:
         repo = vlib.copy_repo(os.path.join(d, "repo"))
         exe = mo.build(repo, d, big_endian=("build" in r))
-        out = mo_run(exe, [r["line"]])[0]
+        out = mo_run(exe, [r["line"]], env={"MEMOPS_UNSHARED": "1"} if r.get("unshared") else None)[0]
     exp = r.get("spec", r.get("expected"))
     print(f"replay {r['line']!r}: real `{out}` expected `{exp}`")
     return 0 if out == exp else 1
